@@ -127,6 +127,7 @@ impl KValue {
         use KValue::*;
         match self {
             List(_) | Map(_) | Str(_) | Tuple(_) => true,
+            Range(r) => r.start().is_some(),
             Object(o) => o.try_borrow().is_ok_and(|o| o.size().is_some()),
             _ => false,
         }
